@@ -63,13 +63,13 @@ Notation HFp := (heap_pop_fact_holds K V keqb keqb_spec hv).
 (* ---- comparePrio is a total preorder, and orders by lastAccess ---- *)
 Lemma cmpp_le a b : cmpp a b <= 0 <-> lastAccess a <= lastAccess b.
 Proof.
-  unfold compare_prio. destruct (Z.compare_spec (lastAccess a) (lastAccess b)); lia.
+  unfold compare_prio, prio_cmp_left, prio_cmp_right. destruct (Z.compare_spec (lastAccess a) (lastAccess b)); lia.
 Qed.
 
 Lemma cmpp_tp : total_preorder prio cmpp.
 Proof.
   split.
-  - intros a b. unfold compare_prio.
+  - intros a b. unfold compare_prio, prio_cmp_left, prio_cmp_right.
     destruct (Z.compare_spec (lastAccess a) (lastAccess b)); destruct (Z.compare_spec (lastAccess b) (lastAccess a)); cbn; lia.
   - intros a b c. rewrite !cmpp_le. lia.
 Qed.
